@@ -121,6 +121,16 @@ Theorem model_shapes_match_source :
 Proof. exact CmpProofs.source_shapes. Qed.
 Print Assumptions model_shapes_match_source.
 
+(* 15. consequence for keyed containers: every key set into a Tree keyed through the modelled cmp is
+       found again (value of the last set under an order-equal key; absent keys reported absent),
+       and a Table's eq-lookup gives the same answer.  `tree_of_sets`/`assoc_get` model the sorted
+       walk of Tree.c, `eq_get` the eq test of Table_Get; balancing, probing and hashing are C02/C03. *)
+Theorem keyed_lookups_find_keys : forall s ins, Forall (fun kv : value * value => dom s (fst kv)) ins ->
+  (exists t, tree_of_sets [] ins = Some t /\ forall k, dom s k -> assoc_get t k = Some (spec_get ins k)) /\
+  (forall k, dom s k -> eq_get ins k = Some (spec_get ins k)).
+Proof. exact CmpProofs.keyed_lookups. Qed.
+Print Assumptions keyed_lookups_find_keys.
+
 (* ------------------------------------------------------------------ non-vacuity of `dom` *)
 Example dom_inhabited_scalars :
   dom SInt (VInt 4294967296) /\ dom SInt (VInt (-9223372036854775808)) /\
